@@ -454,6 +454,15 @@ def State.reindexAll (W : World) (ver fuel : Nat) (s : State) (order : List Ref)
   let s2 := { s1 with deletes := delsOfRows s1.rows }
   { s2 with corpus := if s.corpus.isSome then some (Corpus.load s2.rows) else none }
 
+/-- index.go:463 Reindex called on the running index (as indextest.Reindex does): the rows are wiped
+and rebuilt, but `needs`, `neededBy`, `readyReindex` and the corpus stay as they are; the deletes cache is
+rebuilt at the end. Every waiting blob notes its dependency again (`noteNeededLocked` writes the
+`missing|` row unconditionally), so the rows come out as before. -/
+def State.reindexLive (W : World) (ver fuel : Nat) (s : State) (order : List Ref) : State :=
+  let s0 := { s with rows := [schemaRow ver] }
+  let s1 := order.foldl (fun s b => if s.src.contains b then State.drain W fuel (s.receive W b) else s) s0
+  { s1 with deletes := delsOfRows s1.rows }
+
 /-! ## schedules -/
 
 inductive Act where
